@@ -17,8 +17,9 @@ compared with the pinned one (harness/translate/pinned/*.lean) up to comments an
   .   read as pinned         D   read, definition text differs         L   lost (not emitted; the check would use the
                                                                            pinned definition and tie it by
                                                                            correspondence only)
-In addition a list of PROBES (a harmless refactoring + one harmful edit inside the refactored code) is run: the edited
-definition must come out as D or L.
+In addition nine further harmless rewrites (VARIANTS: renamed loop variable and locals, conditional expressions, helpers
+with early returns, temporaries, swapped branches) must be read as pinned, and a list of PROBES (a kept harmless refactoring
++ one harmful edit inside the refactored code) is run: the edited definition must come out as D or L.
 
 Exit status 0 iff the unchanged tree and all harmless patches read every anchor as pinned and no probe is read as pinned.
 """
@@ -26,7 +27,7 @@ from __future__ import annotations
 
 import json
 import os
-import re
+import re  # noqa: F401  (used by the variants)
 import shutil
 import subprocess
 import sys
@@ -72,6 +73,284 @@ PROBES = [
     ("C11h+bound", "C11h", "pyttb/cp_apr.py", "if not rejected and f_new <= (f_old + suff_decr * gDotd):",
      "if not rejected and f_new <= (f_old + gDotd):", ["cpapr.armijoBound"]),
 ]
+
+# ----------------------------------------------------------------------------------------------------------------------
+# further harmless rewrites (not kept patches; applied to the unchanged tree): renamed loop variable and locals,
+# conditional expressions, helpers with early returns, temporaries, `!=` with swapped branches, `continue`.  Every anchor
+# must be read as pinned.  (Each was run through the 208 doctests of /repo when it was written.)
+# ----------------------------------------------------------------------------------------------------------------------
+def sub1(s, old, new, count=1):
+    assert s.count(old) == count, (old, s.count(old))
+    return s.replace(old, new)
+
+def V1(t):  # cp_als: renamed loop variable and locals
+    p = t / "pyttb/cp_als.py"; s = p.read_text()
+    head, body = s.split("    # Extract number of dimensions and norm of tensor", 1)
+    body = re.sub(r"\biteration\b", "it", body)
+    body = re.sub(r"\bfitold\b", "fit_prev", body)
+    body = re.sub(r"\bfitchange\b", "delta", body)
+    body = re.sub(r"(?<![\"\w])normresidual\b(?!\")", "resid", body)
+    body = re.sub(r"\bnormX\b", "norm_data", body)
+    body = re.sub(r"\bweights\b", "lam", body)
+    p.write_text(head + "    # Extract number of dimensions and norm of tensor" + body)
+
+def V2(t):  # cp_als: conditional expressions instead of if/else
+    p = t / "pyttb/cp_als.py"; s = p.read_text()
+    s = sub1(s, """            if iteration == 0:
+                weights = np.sqrt(sum(Unew**2, 0))  # 2-norm
+            else:
+                weights = np.maximum(np.max(np.abs(Unew), 0), 1)  # max-norm
+""", """            weights = (
+                np.sqrt(sum(Unew**2, 0))
+                if iteration == 0
+                else np.maximum(np.max(np.abs(Unew), 0), 1)
+            )
+""")
+    s = sub1(s, """        if normX == 0:
+            normresidual = M.norm() ** 2 - 2 * iprod
+            fit = normresidual
+        else:
+            # the following input to np.sqrt can be negative due to rounding and
+            # truncation errors, so np.abs is used
+            normresidual = np.sqrt(np.abs(normX**2 + M.norm() ** 2 - 2 * iprod))
+            fit = 1 - (normresidual / normX)  # fraction explained by model
+""", """        normM = M.norm()
+        normresidual = (
+            normM**2 - 2 * iprod
+            if normX == 0
+            else np.sqrt(np.abs(normX**2 + normM**2 - 2 * iprod))
+        )
+        fit = normresidual if normX == 0 else 1 - (normresidual / normX)
+""")
+    s = sub1(s, """        if (iteration > 0) and (fitchange < stoptol):
+            flag = 0
+        else:
+            flag = 1
+
+        if (printitn > 0) and ((divmod(iteration, printitn)[1] == 0) or (flag == 0)):
+            print(f" Iter {iteration}: f = {fit:e} f-delta = {fitchange:7.1e}")
+
+        # Check for convergence
+        if flag == 0:
+            break
+""", """        done = (iteration > 0) and (fitchange < stoptol)
+        if (printitn > 0) and ((divmod(iteration, printitn)[1] == 0) or done):
+            print(f" Iter {iteration}: f = {fit:e} f-delta = {fitchange:7.1e}")
+        if done:
+            break
+""")
+    p.write_text(s)
+
+def V3(t):  # tucker: helper + boolean
+    p = t / "pyttb/tucker_als.py"; s = p.read_text()
+    s = sub1(s, """        normresidual = np.sqrt(abs(normX**2 - core.norm() ** 2))
+        fit = 1 - (normresidual / normX)  # fraction explained by model
+        fitchange = abs(fitold - fit)
+""", """        normresidual, fit = _residual_and_fit(normX, core)
+        fitchange = abs(fitold - fit)
+""")
+    s = sub1(s, """        if fitchange < stoptol:
+            break
+""", """        converged = bool(fitchange < stoptol)
+        if converged:
+            break
+""")
+    s = sub1(s, "\ndef tucker_als(", '''
+def _residual_and_fit(norm_data, core_tensor):
+    """Residual norm and fit of the current Tucker approximation."""
+    resid = np.sqrt(abs(norm_data**2 - core_tensor.norm() ** 2))
+    return resid, 1 - (resid / norm_data)
+
+
+def tucker_als(''')
+    p.write_text(s)
+
+def V4(t):  # hosvd: threshold helper, cumulative sums outside the if, temporary for the bound, conditional expression
+    p = t / "pyttb/hosvd.py"; s = p.read_text()
+    s = sub1(s, "    eigsumthresh = ((tol**2) * normxsqr) / d\n", "    eigsumthresh = _eigsum_threshold(tol, normxsqr, d)\n")
+    s = sub1(s, """        if ranks[k] == 0:
+            eigsum = np.cumsum(eigvec[::-1])
+            eigsum = eigsum[::-1]
+            ranks[k] = np.where(eigsum > eigsumthresh)[0][-1] + 1
+""", """        eigsum = np.cumsum(eigvec[::-1])[::-1]
+        if ranks[k] == 0:
+            last_above = np.where(eigsum > eigsumthresh)[0][-1]
+            ranks[k] = last_above + 1
+""")
+    s = sub1(s, "        factor_matrices[k] = V[:, pi[0 : ranks[k]]]\n", "        n_keep = ranks[k]\n        factor_matrices[k] = V[:, pi[:n_keep]]\n")
+    s = sub1(s, "\ndef hosvd(", '''
+def _eigsum_threshold(tol, normxsqr, ndims):
+    """Largest eigenvalue tail that may be discarded per mode."""
+    return ((tol**2) * normxsqr) / ndims
+
+
+def hosvd(''')
+    p.write_text(s)
+
+def V5(t):  # cp_apr: temporaries in the kkt tests and the acceptance test, renamed locals in the line search
+    p = t / "pyttb/cp_apr.py"; s = p.read_text()
+    s = sub1(s, """            if f_new <= (f_old + suff_decr * gDotd):
+                break
+""", """            accept = f_new <= (f_old + suff_decr * gDotd)
+            if accept:
+                break
+""")
+    s = sub1(s, """        model_new = model_old + stepSize * direction
+        model_new *= model_new > 0
+""", """        trial = model_old + stepSize * direction
+        trial *= trial > 0
+        model_new = trial
+""")
+    s = sub1(s, """                    kkt_violation = np.max(np.abs(np.minimum(m_row, gradM)))
+""", """                    complementarity = np.abs(np.minimum(m_row, gradM))
+                    kkt_violation = np.max(complementarity)
+""")
+    s = sub1(s, """                kktModeViolations[n] = np.max(
+                    np.abs(
+                        vectorize_for_mu(np.minimum(M.factor_matrices[n], 1 - Phi[n]))
+                    )
+                )
+""", """                phi_n = Phi[n]
+                kktModeViolations[n] = np.max(
+                    np.abs(vectorize_for_mu(np.minimum(M.factor_matrices[n], 1 - phi_n)))
+                )
+""")
+    s = sub1(s, "                M.factor_matrices[n] *= Phi[n]\n", "                M.factor_matrices[n] *= phi_n\n")
+    p.write_text(s)
+
+def V6(t):  # cp_als: recomputation moved into a helper, comprehension for the Gram slices, early exit form
+    p = t / "pyttb/cp_als.py"; s = p.read_text()
+    s = sub1(s, """        if normX == 0:
+            normresidual = M.norm() ** 2 - 2 * iprod
+            fit = normresidual
+        else:
+            # the following input to np.sqrt can be negative due to rounding and
+            # truncation errors, so np.abs is used
+            normresidual = np.sqrt(np.abs(normX**2 + M.norm() ** 2 - 2 * iprod))
+            fit = 1 - (normresidual / normX)  # fraction explained by model
+""", """        normresidual = _residual(normX, M.norm(), iprod)
+        fit = _fit(normX, normresidual)
+""")
+    s = sub1(s, """        if normX == 0:
+            normresidual = M.norm() ** 2 - 2 * input_tensor.innerprod(M)
+            fit = normresidual
+        else:
+            normresidual = np.sqrt(
+                np.abs(normX**2 + M.norm() ** 2 - 2 * input_tensor.innerprod(M))
+            )
+            fit = 1 - (normresidual / normX)  # fraction explained by model
+""", """        normresidual = _residual(normX, M.norm(), input_tensor.innerprod(M))
+        fit = _fit(normX, normresidual)
+""")
+    s = sub1(s, "\ndef cp_als(", '''
+def _residual(normX, normM, iprod):
+    if normX == 0:
+        return normM**2 - 2 * iprod
+    return np.sqrt(np.abs(normX**2 + normM**2 - 2 * iprod))
+
+
+def _fit(normX, normresidual):
+    return normresidual if normX == 0 else 1 - (normresidual / normX)
+
+
+def cp_als(''')
+    p.write_text(s)
+
+
+
+def V7(t):  # hosvd: named test, temporaries
+    p = t / "pyttb/hosvd.py"; s = p.read_text()
+    s = sub1(s, """        if ranks[k] == 0:
+            eigsum = np.cumsum(eigvec[::-1])
+            eigsum = eigsum[::-1]
+            ranks[k] = np.where(eigsum > eigsumthresh)[0][-1] + 1
+""", """        choose_rank = ranks[k] == 0
+        if choose_rank:
+            reversed_vals = eigvec[::-1]
+            eigsum = np.cumsum(reversed_vals)[::-1]
+            above = eigsum > eigsumthresh
+            ranks[k] = np.where(above)[0][-1] + 1
+""")
+    s = sub1(s, """    if sequential:
+        G = Y
+    else:
+        G = Y.ttm(factor_matrices, transpose=True)
+
+    result = ttb.ttensor(G, factor_matrices, copy=False)
+""", """    if not sequential:
+        Y = Y.ttm(factor_matrices, transpose=True)
+    G = Y
+
+    result = ttb.ttensor(G, factor_matrices, copy=False)
+""")
+    p.write_text(s)
+
+def V8(t):  # cp_apr: kkt helper, dense log-likelihood with continue
+    p = t / "pyttb/cp_apr.py"; s = p.read_text()
+    s = sub1(s, """                    kkt_violation = np.max(np.abs(np.minimum(m_row, gradM)))
+""", """                    kkt_violation = _row_kkt(m_row, gradM)
+""")
+    s = sub1(s, """                    kkt_violation = np.max(
+                        np.abs(np.minimum(m_row, gradM.transpose()[0]))
+                    )
+""", """                    kkt_violation = _row_kkt(m_row, gradM.transpose()[0])
+""")
+    s = sub1(s, """            if dX[i, j] == 0:
+                pass
+            else:
+                f += dX[i, j] * np.log(dM[i, j])
+""", """            count = dX[i, j]
+            if count == 0:
+                continue
+            f += count * np.log(dM[i, j])
+""")
+    s = sub1(s, "\n# PDNR helper functions\n", '''
+def _row_kkt(row, gradient):
+    """Infinity norm of the KKT residual of a row subproblem."""
+    return np.max(np.abs(np.minimum(row, gradient)))
+
+
+# PDNR helper functions
+''')
+    p.write_text(s)
+
+
+def V9(t):  # hosvd: conditional expression for the rank; cp_als: `!=` test with swapped branches
+    p = t / "pyttb/hosvd.py"; s = p.read_text()
+    s = sub1(s, """        if ranks[k] == 0:
+            eigsum = np.cumsum(eigvec[::-1])
+            eigsum = eigsum[::-1]
+            ranks[k] = np.where(eigsum > eigsumthresh)[0][-1] + 1
+
+            if verbosity > 5:""", """        eigsum = np.cumsum(eigvec[::-1])[::-1]
+        chosen = ranks[k] == 0
+        ranks[k] = (np.where(eigsum > eigsumthresh)[0][-1] + 1) if ranks[k] == 0 else ranks[k]
+        if chosen:
+            if verbosity > 5:""")
+    p.write_text(s)
+    p = t / "pyttb/cp_als.py"; s = p.read_text()
+    s = sub1(s, """        if normX == 0:
+            normresidual = M.norm() ** 2 - 2 * iprod
+            fit = normresidual
+        else:
+            # the following input to np.sqrt can be negative due to rounding and
+            # truncation errors, so np.abs is used
+            normresidual = np.sqrt(np.abs(normX**2 + M.norm() ** 2 - 2 * iprod))
+            fit = 1 - (normresidual / normX)  # fraction explained by model
+""", """        if normX != 0:
+            # the following input to np.sqrt can be negative due to rounding and
+            # truncation errors, so np.abs is used
+            normresidual = np.sqrt(np.abs(normX**2 + M.norm() ** 2 - 2 * iprod))
+            fit = 1 - (normresidual / normX)  # fraction explained by model
+        else:
+            normresidual = M.norm() ** 2 - 2 * iprod
+            fit = normresidual
+""")
+    p.write_text(s)
+
+
+VARIANTS = [("V1-renamed", V1), ("V2-ifexp", V2), ("V3-tk-helper", V3), ("V4-hosvd-tmp", V4), ("V5-apr-tmp", V5),
+            ("V6-als-helpers", V6), ("V7-hosvd-named", V7), ("V8-apr-helper", V8), ("V9-swapped", V9)]
 
 RUNNER = r"""
 import json, sys
@@ -176,6 +455,19 @@ def main(argv):
             table, msgs = classify(run_translators(wt), pinned)
             rows.append((pid, kind, table, msgs, touched_files(patch)))
             if kind == "harmless" and (any(v != "." for v in table.values()) or msgs):
+                rc = 1
+        for vid, fn in ([] if only else VARIANTS):
+            subprocess.run(["git", "-C", str(wt), "checkout", "-q", "--", "."], check=True)
+            subprocess.run(["git", "-C", str(wt), "clean", "-fdq"], check=True)
+            try:
+                fn(wt)
+            except AssertionError as e:
+                rows.append((vid, "variant", None, [f"variant text not found in the current source: {e}"], []))
+                continue       # the source moved on; not a failure of the translators
+            changed = subprocess.run(["git", "-C", str(wt), "diff", "--name-only"], capture_output=True, text=True).stdout.split()
+            table, msgs = classify(run_translators(wt), pinned)
+            rows.append((vid, "harmless", table, msgs, changed))
+            if any(v != "." for v in table.values()) or msgs:
                 rc = 1
         for pid, basep, fname, old, new, expect in ([] if only else PROBES):
             if basep[:3] not in props:
